@@ -1000,28 +1000,7 @@ class Context:
                 else:
                     length = (buffer.byteLength - byte_offset) // element_size
 
-                result = array_class(length)
-                result._buffer = buffer
-                result._byte_offset = byte_offset
-
-                # Read values from buffer
-                import struct
-
-                for i in range(length):
-                    offset = byte_offset + i * element_size
-                    if name in ("Float32Array", "Float64Array"):
-                        fmt = "f" if element_size == 4 else "d"
-                        val = struct.unpack(
-                            fmt, bytes(buffer._data[offset : offset + element_size])
-                        )[0]
-                    else:
-                        val = int.from_bytes(
-                            buffer._data[offset : offset + element_size],
-                            "little",
-                            signed="Int" in name,
-                        )
-                    result._data[i] = result._coerce_value(val)
-
+                result = array_class(length, buffer, byte_offset)
                 return result
             elif isinstance(arg, JSArray):
                 # new Int32Array([1, 2, 3])
